@@ -38,7 +38,7 @@ def status_table():
         if not os.path.exists(ep):
             continue
         e = json.load(open(ep)); cov = e["coverage"]
-        rows.append(f"| {pid} | {e['level']} | {cov.get('discharged', '–')}/{cov.get('obligations', '–')} | {cov['evaluations']} / {cov['distinct_nontrivial']} | {e['wall_s']} | {', '.join(cov.get('known_findings_reproduced') or []) or '–'} |")
+        rows.append(f"| {pid} | {e['level']} | {cov.get('discharged', cov.get('lean_discharged', '–'))}/{cov.get('obligations', cov.get('lean_obligations', '–'))} | {cov['evaluations']} / {cov['distinct_nontrivial']} | {e['wall_s']} | {', '.join(cov.get('known_findings_reproduced') or []) or '–'} |")
     for n in man.get("not_applicable", []):
         rows.append(f"| {n['property_id']} | not claimed | – | – | – | {n['reason'][:80]} |")
     return "\n".join(rows)
